@@ -108,6 +108,19 @@ PROPS = {
         assumptions=[],
         not_yet_proved=[],
     ),
+    "C16": dict(
+        runs=runs([("serde", "release")], [("serde", "release"), ("serde", "debug"), ("serde", "lasso")]),
+        rule="cases = 300 (thorough 3000) random trees, two thirds with token texts containing quotes, backslashes, control, multi-byte and U+2028 characters, "
+             "each serialised in the four forms (plain, with resolver, with data, with data+resolver) under a random partial data assignment and read back "
+             "through from_str, from_slice, from_reader and to_value/from_value (16 round trips per tree, compared with the original dump and data positions); "
+             "rejection: every event stream of length <= 4 (thorough 6) over {EnterNode(0,false), EnterNode(1,true), Token, LeaveNode} x every data-list length "
+             "0..2 (thorough 0..3), rotated through the four routes and classified by an independent reference parser; 12 type-level corruptions that stay valid JSON; "
+             "non-trivial = a round trip or a classification was checked; distinct = distinct op text",
+        assumptions=["JSON (serde_json) is not modelled: the model consumes and produces the event stream and data list; the harness converts both ways",
+                     "token texts offered for kinds with static text equal that text (otherwise the builder's documented debug assertion fires in debug builds)",
+                     "raw kinds in the input are valid for the user's Syntax (from_raw of a derived Syntax panics on unknown kinds; outside cstree's control)"],
+        not_yet_proved=["ser_red: the event stream computed by the Red-level serialiser (walk of preorder_with_tokens) equals serEv of the decorated reference tree (tied by correspondence)"],
+    ),
     "C19": dict(
         runs=runs([("fmt", "release")], [("fmt", "release"), ("fmt", "debug"), ("fmt", "lasso")]),
         rule="cases = for every byte length 0..40 (thorough 0..60): 8 (thorough 12) texts built from 1-4 byte characters in different patterns + 4-byte runs shifted "
